@@ -2,6 +2,9 @@ import Mdsort.Proofs.World
 import Mdsort.Proofs.WorldStdinExample
 import Mdsort.Proofs.WorldWholeEx
 import Mdsort.Proofs.WorldDryF21
+import Mdsort.Proofs.WorldLinTop
+import Mdsort.Proofs.WorldLinEx
+import Mdsort.Proofs.WorldCrashEx
 
 /-!
 # C02 - a crash at any instant never leaves a message without an intact copy
@@ -56,7 +59,7 @@ received or as rewritten by label / add-header.  (A rule set without a move - la
 exec / reject only - rewrites or pipes the spool copy, which the cleanup then removes: status 0 or 1,
 nothing stored; so does a discard, and `-d`.  These are the cases the hypotheses exclude.)
 
-Audit au1, two remarks on `Proofs.Delivered`: (1) the name `name0` of the spool file is EXISTENTIAL (`∃ name0 fl, (∃ k, name0 =
+Audit au1, remarks on `Proofs.Delivered`: (1) the name `name0` of the spool file is EXISTENTIAL (`∃ name0 fl, (∃ k, name0 =
 gennameName env none k) ∧ ...`), not the name the run used: should the verdict differ between counter values `k` (it depends on the name only
 through the message path handed to the evaluator - no theorem says it does not), the `k` for which nothing matches makes
 `Delivered` hold whatever the run did.  (2) The escape "no move in the list" is not an academic one: on the real binary
@@ -66,7 +69,13 @@ unmatched messages only.  (3) The stored copy is "some entry of a directory othe
 a byte-identical file that was already there satisfies it.
 
 Hypotheses: `-` was given, not `-n`, exactly one `stdin` block (any number
-of `maildir` blocks), descriptor 0 holds `input`, `mkdtemp` returns a fresh directory. -/
+of `maildir` blocks), descriptor 0 holds `input`, `mkdtemp` returns a fresh directory.
+
+The rules are evaluated inside the run: `command`, `isdirectory` and file-time `date` conditions ask the operating system
+(`Model.evalP`), and faults may hit those calls too.  `Proofs.Delivered` therefore speaks about the verdict
+`Proofs.World.stdinVerdictA … as` for SOME answers `as` (the answers of this run); for a rule tree without such conditions the
+answers are irrelevant and the verdict is the pure `stdinVerdict` (`C02_stdin_exit0_pure`); `C02_stdin_exit0_stored` is the
+consequence that does not mention the answers. -/
 theorem C02_stdin_exit0 (env : PEnv) (orc : EvalOracles) (conf : List ConfBlock) (files : Files) (input : Bytes) (expr : Expr)
     (w : World) (plan : Plan) (hm : env.stdinMode = true) (hs : env.syntaxOnly = false)
     (hc : Proofs.World.stdinExprs conf = [expr]) (hin : Proofs.World.StdinIs w input)
@@ -74,6 +83,44 @@ theorem C02_stdin_exit0 (env : PEnv) (orc : EvalOracles) (conf : List ConfBlock)
     let r := runPlan plan (mainP env orc true conf files input) w 0 []
     r.1.1 = 0 → Proofs.Delivered env orc expr input r.2.1 :=
   Proofs.stdin_exit0 env orc conf files input expr w plan hm hs hc hin hfresh
+
+/-- **Exit status 0 means stored**, without mentioning the answers: if - WHATEVER the operating system answers to the
+questions of evaluation - the rules either fail or deliver (`Proofs.DeliversV`: an action list without discard, with a
+move/flag/flags action, no destination the spool; e.g. `stdin { match command "c" move "A"  match all move "B" }`), then
+under every fault plan exit status 0 of a real run implies that some entry of a directory other than the spool is bound to a
+file whose DURABLE content is the message as received or as rewritten by the label / add-header actions of one of these
+verdicts. -/
+theorem C02_stdin_exit0_stored (env : PEnv) (orc : EvalOracles) (conf : List ConfBlock) (files : Files) (input : Bytes) (expr : Expr)
+    (w : World) (plan : Plan) (hm : env.stdinMode = true) (hs : env.syntaxOnly = false) (hdry : env.dryrun = false)
+    (hc : Proofs.World.stdinExprs conf = [expr]) (hin : Proofs.World.StdinIs w input)
+    (hfresh : Proofs.World.SpoolFresh env w)
+    (hall : ∀ name0 fl as, flagsParse name0 = some fl →
+      Proofs.World.stdinVerdictA env orc expr input (Proofs.World.spoolPath env ++ [47] ++ name0) fl as = .failed ∨
+      Proofs.DeliversV env (Proofs.World.stdinVerdictA env orc expr input (Proofs.World.spoolPath env ++ [47] ++ name0) fl as))
+    (h0 : (runPlan plan (mainP env orc true conf files input) w 0 []).1.1 = 0) :
+    ∃ d n fid f, d ≠ Proofs.World.spoolPath env ∧
+      (runPlan plan (mainP env orc true conf files input) w 0 []).2.1.lookup d n = some fid ∧
+      (runPlan plan (mainP env orc true conf files input) w 0 []).2.1.file fid = some f ∧
+      (f.durable = input ∨ ∃ name0 fl as ml m',
+        Proofs.World.stdinVerdictA env orc expr input (Proofs.World.spoolPath env ++ [47] ++ name0) fl as = .actions ml m' ∧
+        f.durable = (messageWrite m').1) :=
+  Proofs.delivered_copy hdry hall (C02_stdin_exit0 env orc conf files input expr w plan hm hs hc hin hfresh h0)
+
+/-- For a rule tree that asks the operating system nothing the verdict in `Delivered` is the verdict of the pure evaluator. -/
+theorem C02_stdin_exit0_pure (env : PEnv) (orc : EvalOracles) (expr : Expr) (hfree : Proofs.asksFree expr = true)
+    (input path : Bytes) (fl : MFlags) (as : List SysAns) :
+    Proofs.World.stdinVerdictA env orc expr input path fl as = Proofs.World.stdinVerdict env orc expr input path fl :=
+  Proofs.World.stdinVerdictA_asksFree env orc expr hfree input path fl as
+
+example : Proofs.asksFree Proofs.StdinExample.expr0 = true := by decide
+
+/-- Non-vacuity of the hypothesis `hall` of `C02_stdin_exit0_stored` on the example, for the name the spool file gets: whatever
+the answers are, the verdict delivers (Boolean form `deliversB` of `Proofs.DeliversV`). -/
+example (as : List SysAns) : Proofs.StdinExample.deliversB (Proofs.World.spoolPath Proofs.StdinExample.env0)
+    (Proofs.World.stdinVerdictA Proofs.StdinExample.env0 Proofs.StdinExample.orc0 Proofs.StdinExample.expr0
+      Proofs.StdinExample.input0 Proofs.StdinExample.path0 MFlags.empty as) = true := by
+  rw [Proofs.World.stdinVerdictA_asksFree _ _ _ (by decide)]
+  exact Proofs.StdinExample.ex_delivers
 
 /-! Non-vacuity: the hypotheses hold for a 10-byte message, TMPDIR `/tmp` and the configuration
 `stdin { match all move "/m/inbox" }` (Proofs/WorldStdinExample); for the name the spool file gets
@@ -96,7 +143,8 @@ example : (runPlan Plan.none (mainP Proofs.StdinExample.env0 Proofs.StdinExample
   rw [(Proofs.dry_runNone_eq _ _ 0 []).1, Proofs.Own.mainP_eq]
   unfold Proofs.Own.mainK
   simp only [Proofs.StdinExample.conf0, Proofs.Own.blocks_cons, Proofs.Own.blocks_nil, Proofs.Own.paths_cons,
-    Proofs.Own.paths_nil, Proofs.dry_walk_G, Proofs.StdinExample.expr0, eval]
+    Proofs.Own.paths_nil, Proofs.dry_walk_G _ _ Proofs.StdinExample.expr0 (by decide)]
+  simp only [Proofs.StdinExample.expr0, eval]
   decide +kernel
 
 example : Proofs.StdinExample.deliversB (Proofs.World.spoolPath Proofs.StdinExample.env0)
@@ -114,7 +162,8 @@ A process killed before call k of `mainP` leaves the world after call k-1; a pow
 durable contents.  Both are covered by a statement about the world after EVERY call. -/
 
 /-- One message: after every call of `processMessage`, under every fault plan, some entry is bound to
-a file whose content ON STABLE STORAGE is the message or its complete rewrite. -/
+a file whose content ON STABLE STORAGE is the message or its complete rewrite (for some answers `as` of the operating
+system to the questions of evaluation: `command`, `isdirectory` and file-time `date` conditions are part of the run). -/
 theorem C02_message_power_failure (env : PEnv) (orc : EvalOracles) (expr : Expr) (md : Maildir) (name : Bytes) (st : MainSt)
     (w : World) (plan : Plan) (d : Handle) (content : Bytes) (fid : Nat)
     (hd : md.dirH = some d) (hp : w.dirPath d = some md.path)
@@ -123,8 +172,9 @@ theorem C02_message_power_failure (env : PEnv) (orc : EvalOracles) (expr : Expr)
     (hl : w.lookup md.path name = some fid) (hlt : fid < w.nextFid) (hf : w.file fid = some ⟨content, content⟩)
     (hnd : Proofs.WholeNoDiscard env orc expr) :
     ∀ w' ∈ (runPlan plan (processMessage env orc expr md name st) w 0 []).2.2,
-      Proofs.IntactDurable w' [content, Proofs.wholeRewrite env orc expr md.path name content] := fun w' hw' =>
-  (Proofs.whole_message_no_loss env orc expr md name st w plan hd hp hwf hfc hl hlt hf hnd w' hw').2.1
+      ∃ as, Proofs.IntactDurable w' [content, Proofs.wholeRewrite env orc expr md.path name content as] := fun w' hw' => by
+  obtain ⟨⟨as, _, h⟩, _⟩ := Proofs.whole_message_no_loss env orc expr md name st w plan hd hp hwf hfc hl hlt hf hnd w' hw'
+  exact ⟨as, h⟩
 
 /-- One maildir: after every call of `walk`, under every fault plan, every registered message has an
 entry bound to a file whose visible content AND whose content on stable storage are complete versions of it. -/
@@ -173,5 +223,164 @@ example : Proofs.exEnv.stdinMode = false ∧
     (∀ b ∈ Proofs.wholeExConf, Proofs.WholeNoDiscard Proofs.exEnv Proofs.wholeExOrc b.expr) ∧
     Proofs.WholeReg Proofs.wholeExWorld Proofs.wholeExFiles :=
   ⟨rfl, Proofs.wholeEx_nd, Proofs.wholeEx_reg⟩
+
+/-! ## by LINEAGE (package p12; audit au1, W1): the intact copy is a copy OF THE MESSAGE
+
+`C02_crash_any_prefix`, `C02_power_failure` and the `C02_*_power_failure` theorems above say "some entry holds these bytes";
+a byte-identical other message satisfies them.  The following say that the entry is bound to a file that DESCENDS FROM the
+message's file (`Model/Lineage.lean`; see the section "by lineage" of `Props/C01.lean`).  The old statements follow. -/
+
+/-- **Process kill, by lineage**: under every fault plan, after EVERY call of the execution of an action list (no discard),
+some entry is bound to a file that descends from the message's file `fid` and holds a complete stage - visibly (what a
+process kill leaves) and on stable storage (content as of the last successful `fsync`). -/
+theorem C02_crash_any_prefix_exact (env : PEnv) (ml : MatchList) (st : ExecSt) (w : World) (orig : Bytes) (plan : Plan)
+    (hs : Proofs.Start w st orig) (hd : Proofs.NoDiscard ml) (fid : Nat)
+    (hfid : w.lookup st.src.path st.ms.name = some fid) :
+    ∀ w' ∈ (runPlan plan (matchesExec env ml st) w 0 []).2.2,
+      ∃ p n g f, w'.lookup p n = some g ∧ (lineage w { cur := some fid, org := id } (traceSince w w')).org g = fid ∧
+        w'.file g = some f ∧ f.data ∈ Proofs.stages st.ms orig ∧ f.durable ∈ Proofs.stages st.ms orig :=
+  Proofs.exec_no_loss_exact env ml st w orig plan hs hd { cur := some fid, org := id } fid fid hfid rfl rfl
+
+/-- `C02_crash_any_prefix` and `C02_power_failure` are corollaries. -/
+theorem C02_power_failure_of_exact (env : PEnv) (ml : MatchList) (st : ExecSt) (w : World) (orig : Bytes) (plan : Plan)
+    (hs : Proofs.Start w st orig) (hd : Proofs.NoDiscard ml) :
+    ∀ w' ∈ (runPlan plan (matchesExec env ml st) w 0 []).2.2,
+      Proofs.Intact w' (Proofs.stages st.ms orig) ∧ Proofs.IntactDurable w' (Proofs.stages st.ms orig) := by
+  intro w' hw'
+  obtain ⟨fid, hl, _⟩ := hs.bound
+  obtain ⟨p, n, g, f, h1, _, h3, h4, h5⟩ := C02_crash_any_prefix_exact env ml st w orig plan hs hd fid hl w' hw'
+  exact ⟨⟨p, n, g, f, h1, h3, h4⟩, ⟨p, n, g, f, h1, h3, h5⟩⟩
+
+/-- Non-vacuity on the world with two byte-identical messages (see `Props/C01.lean`, `C01_no_loss_exact`). -/
+example : Proofs.Start Proofs.twinExecWorld Proofs.exSt Proofs.exOrig ∧ Proofs.NoDiscard Proofs.exList ∧
+    Proofs.twinExecWorld.lookup Proofs.exSt.src.path Proofs.exSt.ms.name = some 0 ∧
+    Proofs.twinExecWorld.file 0 = Proofs.twinExecWorld.file 1 :=
+  ⟨Proofs.twin_start, Proofs.ex_noDiscard, by decide, by decide⟩
+
+/-- **A whole run, by lineage**: maildir mode, any configuration without discard, any population consistent with the
+registry: a crash (process kill or power failure) at ANY instant, under EVERY fault plan, leaves for every registered
+message - bound initially to the file `f0` - an entry bound to a file that DESCENDS FROM `f0` and whose visible content and
+whose content on stable storage are complete versions of it.  (As `C02_main_power_failure` this is an invariant of the
+world after every call; the crash states themselves are constructed, for one action list, in `C02_crash_states_partial`.) -/
+theorem C02_main_power_failure_exact (env : PEnv) (orc : EvalOracles) (confOk : Bool) (conf : List ConfBlock) (files : Files)
+    (input : Bytes) (w : World) (plan : Plan) (hm : env.stdinMode = false)
+    (hnd : ∀ b ∈ conf, Proofs.WholeNoDiscard env orc b.expr) (hreg : Proofs.WholeReg w files) :
+    ∀ w' ∈ (runPlan plan (mainP env orc confOk conf files input) w 0 []).2.2,
+      ∀ dir name c f0, files.get dir name = some c → w.lookup dir name = some f0 →
+        ∃ d n g f, w'.lookup d n = some g ∧ originAt w w' g = f0 ∧ w'.file g = some f ∧
+          Proofs.WholeVersion env orc (conf.map (·.expr)) c f.data ∧
+          Proofs.WholeVersion env orc (conf.map (·.expr)) c f.durable := by
+  intro w' hw' dir name c f0 hc hl
+  obtain ⟨d, n, g, f, h1, _, h3, h4, h5, h6⟩ :=
+    Proofs.lin_main_no_loss env orc confOk conf files input w plan hm hnd hreg w' hw' dir name c f0 hc hl
+  exact ⟨d, n, g, f, h1, h3, h4, h5, h6⟩
+
+/-- `C02_main_power_failure` is a corollary. -/
+theorem C02_main_power_failure_of_exact (env : PEnv) (orc : EvalOracles) (confOk : Bool) (conf : List ConfBlock) (files : Files)
+    (input : Bytes) (w : World) (plan : Plan) (hm : env.stdinMode = false)
+    (hnd : ∀ b ∈ conf, Proofs.WholeNoDiscard env orc b.expr) (hreg : Proofs.WholeReg w files) :
+    ∀ w' ∈ (runPlan plan (mainP env orc confOk conf files input) w 0 []).2.2,
+      ∀ dir name c, files.get dir name = some c →
+        ∃ d n fid f, w'.lookup d n = some fid ∧ w'.file fid = some f ∧
+          Proofs.WholeVersion env orc (conf.map (·.expr)) c f.data ∧
+          Proofs.WholeVersion env orc (conf.map (·.expr)) c f.durable := by
+  intro w' hw' dir name c hc
+  obtain ⟨f0, hl, _, _⟩ := hreg dir name c hc
+  obtain ⟨d, n, g, f, h1, _, h3, h4, h5⟩ :=
+    C02_main_power_failure_exact env orc confOk conf files input w plan hm hnd hreg w' hw' dir name c f0 hc hl
+  exact ⟨d, n, g, f, h1, h3, h4, h5⟩
+
+/-- Non-vacuity of `C02_main_power_failure_exact` on the world with two byte-identical messages. -/
+example : Proofs.exEnv.stdinMode = false ∧
+    (∀ b ∈ Proofs.wholeExConf, Proofs.WholeNoDiscard Proofs.exEnv Proofs.wholeExOrc b.expr) ∧
+    Proofs.WholeReg Proofs.twinWorld Proofs.twinFiles ∧
+    Proofs.twinWorld.lookup Proofs.exNew Proofs.exName = some 0 ∧
+    Proofs.twinWorld.lookup Proofs.exNew Proofs.wholeExName2 = some 1 :=
+  ⟨rfl, Proofs.wholeEx_nd, Proofs.twin_reg, by decide, by decide⟩
+
+/-! ## the crash states themselves (package p12; audit au1, W5)
+
+`C02_power_failure` and its relatives are invariants of the `durable` field of the world after every call.  The state a
+power failure leaves is a different object: under the storage model the property names - directory operations persist IN
+ORDER, the content of a file persists as of its last successful `fsync` - a failure after call `j` leaves the directory
+entries of the world after SOME EARLIER call `i ≤ j` together with the durable contents of the world after call `j`.
+`Model.crashState wd wf` (Model/Crash.lean) is that state: the directories of `wd`, every file of `wf` holding its
+`durable` content, no descriptor open; `Model.worldAt w tr i` is the world after the first `i` calls of the trace `tr`
+issued from `w` (`i = 0`: `w` itself); `Model.crashStates w w'` lists the crash states of `w'` for all `i`.
+
+The step from the per-call invariant to these mixed states needs more than the invariant: a file that holds a complete
+version on stable storage must not be synced again with something else.  Proved: durable content changes ONLY by a
+successful `fsync` and then becomes the visible content (`Proofs.World.core_file_notFsync`, `core_file_fsync`, every
+call, every result); the message's own file is never written (`WholeK`); a file made by this run has durable content
+empty or a complete version at every moment, and always a prefix of its visible content (`Proofs.World.DI`; the one
+`fsync` of `message_write` comes after `fflush` has made the complete message visible: `di_messageWriteP`). -/
+
+/-- **Every crash state has an intact copy of the message, by lineage** - one action list without discard (move on one
+device or across devices, flag, flags, label, add-header, exec in any order and number), from a `StartAt` world in which
+the message's entry is bound to `fid`, under EVERY fault plan: after every call `j` (`w'`), for EVERY `i ≤ j`, the crash
+state "directories after the first `i` calls, files as on stable storage after call `j`" has an entry bound to a file `g`
+that DESCENDS FROM `fid` and whose content (in the crash state) is a complete stage of the message.
+
+Hypothesis `hpp` (`Proofs.World.NoPartPipe`): no `exec stdin` of an ATTACHMENT without `body` - there `message_write`
+renders the part into a temporary file and syncs it; the file is never bound to an entry, but the invariant `DI` as stated
+speaks of every file the run makes.  What is missing for the general statement: "a temporary file is never bound"
+(the whole-run form over `mainP` is not proved either: `C02_main_power_failure_exact` stays a per-call invariant). -/
+theorem C02_crash_states_partial (env : PEnv) (ml : MatchList) (st : ExecSt) (w : World) (orig : Bytes) (plan : Plan)
+    (hs : Proofs.StartAt w st orig) (hd : Proofs.NoDiscard ml) (hpp : Proofs.World.NoPartPipe ml) (fid : Nat)
+    (hfid : w.lookup st.src.path st.ms.name = some fid) :
+    ∀ w' ∈ (runPlan plan (matchesExec env ml st) w 0 []).2.2, ∀ i, i ≤ (traceSince w w').length →
+      ∃ p n g f, (crashState (worldAt w (traceSince w w') i) w').lookup p n = some g ∧
+        (lineage w { cur := some fid, org := id } (traceSince w w')).org g = fid ∧
+        (crashState (worldAt w (traceSince w w') i) w').file g = some f ∧ f.data ∈ Proofs.stages st.ms orig :=
+  Proofs.exec_crash_states env ml st w orig plan hs hd hpp fid hfid
+
+/-- The same for the list `Model.crashStates`: every member has such an entry. -/
+theorem C02_crash_states_all_partial (env : PEnv) (ml : MatchList) (st : ExecSt) (w : World) (orig : Bytes) (plan : Plan)
+    (hs : Proofs.StartAt w st orig) (hd : Proofs.NoDiscard ml) (hpp : Proofs.World.NoPartPipe ml) (fid : Nat)
+    (hfid : w.lookup st.src.path st.ms.name = some fid) :
+    ∀ w' ∈ (runPlan plan (matchesExec env ml st) w 0 []).2.2, ∀ cw ∈ crashStates w w',
+      ∃ p n g f, cw.lookup p n = some g ∧ (lineage w { cur := some fid, org := id } (traceSince w w')).org g = fid ∧
+        cw.file g = some f ∧ f.data ∈ Proofs.stages st.ms orig := by
+  intro w' hw' cw hcw
+  unfold crashStates at hcw
+  simp only [List.mem_map, List.mem_range] at hcw
+  obtain ⟨i, hi, rfl⟩ := hcw
+  exact C02_crash_states_partial env ml st w orig plan hs hd hpp fid hfid w' hw' i (by omega)
+
+/-- The full statement (any action list without discard), kept visible: not proved - `C02_crash_states_partial` needs
+`NoPartPipe` (see there). -/
+def C02_crash_states : Prop :=
+  ∀ (env : PEnv) (ml : MatchList) (st : ExecSt) (w : World) (orig : Bytes) (plan : Plan),
+    Proofs.StartAt w st orig → Proofs.NoDiscard ml → ∀ fid, w.lookup st.src.path st.ms.name = some fid →
+    ∀ w' ∈ (runPlan plan (matchesExec env ml st) w 0 []).2.2, ∀ cw ∈ crashStates w w',
+      ∃ p n g f, cw.lookup p n = some g ∧ (lineage w { cur := some fid, org := id } (traceSince w w')).org g = fid ∧
+        cw.file g = some f ∧ f.data ∈ Proofs.stages st.ms orig
+
+/-- Non-vacuity on the world with two byte-identical messages: the start situation, the list "move to `/m/cur`, then
+label" (no discard, no exec at all). -/
+example : Proofs.StartAt Proofs.twinExecWorld Proofs.exSt Proofs.exOrig ∧ Proofs.NoDiscard Proofs.exList ∧
+    Proofs.World.NoPartPipe Proofs.exList ∧
+    Proofs.twinExecWorld.lookup Proofs.exSt.src.path Proofs.exSt.ms.name = some 0 := by
+  refine ⟨Proofs.twin_startAt, Proofs.ex_noDiscard, ?_, by decide⟩
+  intro m hm hty
+  simp only [Proofs.exList, List.mem_cons, List.not_mem_nil, or_false] at hm
+  rcases hm with rfl | rfl <;> cases hty
+
+/-- Three crash states of the fault-free run of that example, evaluated (`Proofs.twin_crash_states`): directories after
+call 12 with stable storage at the end - the renamed original and the labelled copy both complete; directories AND
+stable storage after call 12 (power fails between `fflush` and `fsync` of the copy) - the copy is EMPTY on stable storage,
+the renamed original (file 0) is complete; directories after call 3 with stable storage after call 14 - the message is
+still `/m/new/1.h`, the placeholder is empty. -/
+example :
+    Proofs.crashEntries (crashState (Proofs.twinAt 12) (Proofs.twinAt 20)) =
+      [(Proofs.exNew, Proofs.wholeExName2, 1, Proofs.exOrig), (Proofs.exCur, Proofs.twinName 8, 0, Proofs.exOrig),
+       (Proofs.exCur, Proofs.twinName 9, 3, Proofs.exOrig)] ∧
+    Proofs.crashEntries (crashState (Proofs.twinAt 12) (Proofs.twinAt 12)) =
+      [(Proofs.exNew, Proofs.wholeExName2, 1, Proofs.exOrig), (Proofs.exCur, Proofs.twinName 8, 0, Proofs.exOrig),
+       (Proofs.exCur, Proofs.twinName 9, 3, [])] ∧
+    Proofs.crashEntries (crashState (Proofs.twinAt 3) (Proofs.twinAt 14)) =
+      [(Proofs.exNew, Proofs.exName, 0, Proofs.exOrig), (Proofs.exNew, Proofs.wholeExName2, 1, Proofs.exOrig),
+       (Proofs.exCur, Proofs.twinName 8, 2, [])] :=
+  Proofs.twin_crash_states
 
 end Mdsort.Props
